@@ -4,6 +4,7 @@ CONSTANTS
   ENT = 1
   N = 4
   WT = {1, 2, 3}
+  SetTypes = {1, 2, 3}
   OT = {7}
   KS = {1, 2}
   AddCs = {0}
